@@ -82,3 +82,31 @@ def _replay(model, contract):
 
 for _c in CONTRACTS.values():
     _c["replay_hook"] = _replay
+
+
+# ---- add_pop on the same databook: a second mosquito population appears on exactly the sides / tables of its own population type, with an
+# empty series in the table's units; everything that belongs to the human type is untouched
+def _ghost_timeseries(it, *a, **k):
+    return ("empty series", k.get("units"))
+
+
+CONTRACTS["data:ProjectData.add_pop#second_mosquito_population"] = dict(
+    schema=schema, make_env=_make_env, ghost_params={"code_name": "const:' m2 '", "full_name": "const:'Mosquitoes 2'", "pop_type": "const:'mos'"},
+    call_stubs={"TimeSeries": _ghost_timeseries},
+    raises={}, raises_props=["C16", "C18"],
+    ensures=[
+        ("C16.the_population_is_listed_with_its_label_and_type_under_the_stripped_name", "self.pops['m2'] == {'label': 'Mosquitoes 2', 'type': 'mos'} and len(self.pops) == 3"),
+        ("C16.it_joins_the_sides_of_its_own_type_only", "inter.from_pops == ['m1', 'm2'] and inter.to_pops == ['h1'] and tr.from_pops == ['h1'] and tr.to_pops == ['h1']"),
+        ("C16.it_gets_an_empty_series_in_the_tables_of_its_own_type_only", "t_m.ts == {'m1': 'series dens m1', 'm2': ('empty series', 'u')} and t_h.ts == {'h1': 'series prev h1'}"),
+    ],
+    defined_props=["C16", "C18"], op="add")
+CONTRACTS["data:ProjectData.add_pop#name_already_used"] = dict(
+    schema=schema, make_env=_make_env, ghost_params={"code_name": "const:'m1'", "full_name": "const:'Again'", "pop_type": "const:'mos'"},
+    call_stubs={"TimeSeries": _ghost_timeseries},
+    raises={"AssertionError": "True"}, raises_props=["C16", "C18"],
+    ensures=[], defined_props=["C16", "C18"], op="add")
+CONTRACTS["data:ProjectData.add_pop#unknown_population_type"] = dict(
+    schema=schema, make_env=_make_env, ghost_params={"code_name": "const:'x1'", "full_name": "const:'X'", "pop_type": "const:'env'"},
+    call_stubs={"TimeSeries": _ghost_timeseries},
+    raises={"AssertionError": "True"}, raises_props=["C16", "C18"],
+    ensures=[], defined_props=["C16", "C18"], op="add")
